@@ -1,12 +1,14 @@
 package main
 
 import (
+	"context"
 	"encoding/json"
 	"flag"
 	"fmt"
 	"go/constant"
 	"golang.org/x/tools/go/ssa"
 	"os"
+	"os/exec"
 	"path/filepath"
 	"sort"
 	"strings"
@@ -32,12 +34,24 @@ type FindingsFile struct {
 
 // per-property settings
 type propCfg struct {
-	Safety bool // automatic no-panic obligations are part of this property
+	Safety  bool // automatic no-panic obligations are part of this property
+	Bounded *boundedCfg
+}
+
+// boundedCfg: a bounded stand-in (labelled bounded in the evidence, never counted as
+// proved) that runs the real code through `go test -overlay`.
+type boundedCfg struct {
+	File   string // under /verif/bounded
+	PkgDir string // package directory under the repository
+	Test   string
+	What   string
 }
 
 var propCfgs = map[string]propCfg{
 	"C08": {Safety: true},
 	"C15": {Safety: true},
+	"C02": {Bounded: &boundedCfg{File: "C02_pagination_test.go", PkgDir: "render", Test: "TestBoundedC02",
+		What: "content part of C02: pages shown by the real Page.Render, walked from index 0, compared with the rows (complete, in order, once; static text and ordinary menu on every page; next/previous offered exactly on inner pages; error past the end; no panic)"}},
 	"C13": {Safety: true},
 }
 
@@ -229,7 +243,7 @@ func cmdCheck(args []string) int {
 			defer wg.Done()
 			sem <- true
 			defer func() { <-sem }()
-			results[i] = P.verifyFunction(k, VerifyOpts{Prop: *prop, Safety: cfg.Safety, SafetyTags: []string{*prop}, Findings: relevant})
+			results[i] = P.verifyFunction(k, VerifyOpts{Prop: *prop, Safety: cfg.Safety, AllowFnSafety: true, SafetyTags: []string{*prop}, Findings: relevant})
 		}(i, k)
 	}
 	wg.Wait()
@@ -334,6 +348,50 @@ func cmdCheck(args []string) int {
 			Text:   fmt.Sprintf("%s == %q", pn.Name, pn.Value),
 			Output: "the assumed meaning of this text (axioms / documented format) was stated for the pinned value; " + why})
 	}
+	// bounded stand-in on the real code
+	var boundedEv map[string]interface{}
+	var boundedViol []map[string]interface{}
+	if cfg.Bounded != nil {
+		res, err := runBounded(*repo, vd, cfg.Bounded, *tier)
+		if err != nil {
+			undecided = append(undecided, "bounded:"+cfg.Bounded.Test+": "+err.Error())
+		} else {
+			boundedEv = map[string]interface{}{"level": "bounded", "what": cfg.Bounded.What, "harness": "bounded/" + cfg.Bounded.File,
+				"bound": res["bound"], "cases": res["cases"], "row_lists": res["row_lists"], "skipped_not_fitting": res["skipped_not_fitting"], "classes": res["classes"]}
+			examples, _ := res["examples"].([]interface{})
+			classes, _ := res["classes"].(map[string]interface{})
+			var cnames []string
+			for cn := range classes {
+				cnames = append(cnames, cn)
+			}
+			sort.Strings(cnames)
+			for _, cn := range cnames {
+				if cn == "unexpected" {
+					continue
+				}
+				var f *Finding
+				for _, x := range relevant {
+					if x.Obligation == "bounded:"+cn {
+						f = x
+					}
+				}
+				var ex interface{}
+				for _, e := range examples {
+					if m, ok := e.(map[string]interface{}); ok && m["class"] == cn {
+						ex = m
+					}
+				}
+				if f != nil {
+					known = append(known, fmt.Sprintf("KNOWN-FINDING: property=%s %s [bounded harness, class %s: %v cases]", *prop, f.What, cn, classes[cn]))
+				} else {
+					boundedViol = append(boundedViol, map[string]interface{}{"class": cn, "example": ex, "count": classes[cn]})
+				}
+			}
+			if un, _ := res["unexpected"].([]interface{}); len(un) > 0 {
+				boundedViol = append(boundedViol, map[string]interface{}{"class": "unexpected", "examples": un, "count": classes["unexpected"]})
+			}
+		}
+	}
 	for _, k := range known {
 		fmt.Println(k)
 	}
@@ -366,6 +424,20 @@ func cmdCheck(args []string) int {
 		}
 		fmt.Printf("failed obligation: %s %s (%s) verdict=%s %s\n", o.Fn, o.Name, o.Pos, o.Result, o.Text)
 		fmt.Printf("VIOLATION property=%s replay=%s%s\n", *prop, path, suffix)
+		rc = 1
+	}
+	for i, bv := range boundedViol {
+		nviol++
+		os.MkdirAll(repDir, 0755)
+		path := filepath.Join(repDir, fmt.Sprintf("bounded_%d.json", i))
+		bv["property"] = *prop
+		bv["obligation"] = "bounded:" + fmt.Sprint(bv["class"])
+		bv["reproduced"] = true
+		bv["how_to_run"] = "go test -overlay (zz_bounded_test.go -> /verif/bounded/" + cfg.Bounded.File + ") -run " + cfg.Bounded.Test + " in " + cfg.Bounded.PkgDir
+		b, _ := json.MarshalIndent(bv, "", " ")
+		os.WriteFile(path, append(b, '\n'), 0644)
+		fmt.Printf("failed obligation: bounded:%v (%v failing inputs on the real code)\n", bv["class"], bv["count"])
+		fmt.Printf("VIOLATION property=%s replay=%s\n", *prop, path)
 		rc = 1
 	}
 	if len(stats.disag) > 0 {
@@ -439,6 +511,7 @@ func cmdCheck(args []string) int {
 			"load_s":                   round3(loadSecs),
 			"vcgen_s":                  round3(genSecs),
 			"solve_wall_s":             round3(solveSecs),
+			"bounded_stand_in":         boundedEv,
 			"slowest_obligations":      slow,
 			"solver_s_by_function":     roundMap(perFn),
 			"smoke_checks":             map[string]int{"run": nSmoke, "reachable": nSmokeOK},
@@ -539,4 +612,38 @@ func truncate(s string, n int) string {
 		return s[:n] + "..."
 	}
 	return s
+}
+
+// runBounded runs a bounded harness against the real code through an overlay
+// (nothing is written to the repository) and returns its BOUNDED-RESULT record.
+func runBounded(repo, vd string, b *boundedCfg, tier string) (map[string]interface{}, error) {
+	dir, err := os.MkdirTemp("", "vcgo-bounded")
+	if err != nil {
+		return nil, err
+	}
+	defer os.RemoveAll(dir)
+	ov := map[string]map[string]string{"Replace": {filepath.Join(repo, b.PkgDir, "zz_bounded_test.go"): filepath.Join(vd, "bounded", b.File)}}
+	ob, _ := json.Marshal(ov)
+	ovp := filepath.Join(dir, "ov.json")
+	os.WriteFile(ovp, ob, 0644)
+	ctx, cancel := context.WithTimeout(context.Background(), 20*time.Minute)
+	defer cancel()
+	cmd := exec.CommandContext(ctx, "go", "test", "-overlay", ovp, "-vet=off", "-count=1", "-timeout", "15m", "-run", "^"+b.Test+"$", "-v", ".")
+	cmd.Dir = filepath.Join(repo, b.PkgDir)
+	bound := "quick"
+	if tier == "thorough" {
+		bound = "thorough"
+	}
+	cmd.Env = append(os.Environ(), "VCGO_BOUND="+bound, "GOFLAGS=-mod=mod", "GOPROXY=off", "GOSUMDB=off", "GOTOOLCHAIN=local")
+	out, _ := cmd.CombinedOutput()
+	for _, l := range strings.Split(string(out), "\n") {
+		if strings.HasPrefix(l, "BOUNDED-RESULT ") {
+			var res map[string]interface{}
+			if err := json.Unmarshal([]byte(l[len("BOUNDED-RESULT "):]), &res); err != nil {
+				return nil, err
+			}
+			return res, nil
+		}
+	}
+	return nil, fmt.Errorf("the harness produced no result: %s", truncate(string(out), 600))
 }
